@@ -180,6 +180,27 @@ func c05Gen(tier string, seed int64) []core.Case {
 					cs = append(cs, core.Case{ID: id, Class: id, Kind: "field", P: p, Cost: sc.cost})
 				}
 			}
+			// the switch lets a party tolerate an ABSENT proof (peers running an older version); a proof that is present
+			// is still verified: a present but altered proof of the switched-off kind must be refused as usual
+			// (a mixed deployment on the smallest committee: the party with index 1 has the switch set, the deviator, index 0,
+			// has not and sends a real proof with one component altered)
+			for _, sm := range smallFaultSessions() {
+				if sm.proto != sc.proto {
+					continue
+				}
+				for fl, field := range map[string]string{"nomod-at-1": "mod", "nofac-at-1": "fac"} {
+					for _, fi := range staticFields[sc.proto] {
+						if !strings.HasPrefix(strings.ToLower(fi.Field), field) || !fi.Repeated {
+							continue
+						}
+						f := faultSpec{fi.Type, fi.Field, "first", "+1", "low", false, ""}
+						p := f.P(sm.P())
+						p["flags"] = fl
+						id := fmt.Sprintf("%s/flags=%s/present-but-altered/%s", sc.proto, fl, f.String())
+						cs = append(cs, core.Case{ID: id, Class: id, Kind: "field", P: p, Cost: sm.cost})
+					}
+				}
+			}
 		}
 		if strings.HasSuffix(sc.proto, "signing") || strings.HasSuffix(sc.proto, "resharing") {
 			for _, pos := range poss {
@@ -360,6 +381,18 @@ func c05Run(c core.Case, env *core.Env) core.Result {
 		sim.ParamHook = func(p *tss.Parameters) { p.SetNoProofMod() }
 	case "nofac":
 		sim.ParamHook = func(p *tss.Parameters) { p.SetNoProofFac() }
+	case "nomod-at-1":
+		sim.ParamHook = func(p *tss.Parameters) {
+			if p.PartyID().Index == 1 {
+				p.SetNoProofMod()
+			}
+		}
+	case "nofac-at-1":
+		sim.ParamHook = func(p *tss.Parameters) {
+			if p.PartyID().Index == 1 {
+				p.SetNoProofFac()
+			}
+		}
 	}
 	defer func() { sim.ParamHook = nil }()
 	var fr *faultRun
